@@ -1,17 +1,28 @@
-"""C23 cloud back ends: the REAL AsyncFS.read_range / read_from / open_from, GoogleStorageAsyncFS._open_from +
-GoogleStorageClient.get_object + GetObjectStream, S3AsyncFS._open_from (+ _ReadableStreamFromBlocking) and
-AzureAsyncFS._open_from + AzureReadableStream.read(-1) are executed natively (vt.natsym path explorer) with
-z3-backed integers for object size, offsets and lengths.
+"""C23 native harness: the REAL AsyncFS.read_range / read_from / open_from on top of the REAL back ends
 
-The only fakes are the transports *below* the repository code:
-  * GCS  : `GoogleStorageClient._session.get(url, headers=…)`   -> RFC 7233 origin server over one object
-  * S3   : `S3AsyncFS._s3.get_object(Bucket, Key, Range=…)`     -> the same server, 416 = ClientError/InvalidRange
-  * Azure: `BlobClient.download_blob(offset, length)`            -> the SDK's documented offset/length semantics
-The Range header is a real Python f-string; a symbolic integer formats itself as a token `⟦k⟧` that the fake
+  gcs   GoogleStorageAsyncFS._open_from + GoogleStorageClient.get_object + GetObjectStream
+  s3    S3AsyncFS._open_from + _ReadableStreamFromBlocking
+  azure AzureAsyncFS._open_from + AzureReadableStream (read / readexactly, chunk buffer)
+  local LocalAsyncFS._open_from + TruncatedReadableBinaryIO + _ReadableStreamFromBlocking
+
+executed by CPython under the vt.natsym path explorer with z3-backed integers for the object size, offsets and
+lengths.  The only fakes are the transports *below* the repository code:
+
+  gcs   `GoogleStorageClient._session.get(url, headers=…)`  -> RFC 7233 origin server over one object
+  s3    `S3AsyncFS._s3.get_object(Bucket, Key, Range=…)`    -> the same server, 416 = ClientError/InvalidRange
+  azure `BlobClient.download_blob(offset, length)`           -> the SDK's offset/length semantics, 416 past EOF
+  local builtin `open` (in local_fs's namespace)             -> a BinaryIO over the object
+
+The Range header is built by the real f-string: a symbolic integer renders itself as a token `⟦k⟧` which the fake
 server maps back to its z3 term, so (first,last) are exactly the terms the real expressions computed.
 
-The same module runs concretely (plain ints, real bytes): that is the replay path and the translator
-validation of the fake server's parsing.
+Three modes of the stored object (`Blob`):
+  sym       size symbolic, every slice is a `SymSlice(off, len)` of z3 terms: no bound on anything, but code that
+            needs len() of the bytes (block loops) cannot run;
+  tag       size and all offsets symbolic, block LENGTHS concretised by case split up to `B`; a byte at absolute
+            position p carries the value TAG0 + (p - ref) where `ref` is the requested start, so the real code runs
+            on real `bytes` and "the right bytes" is a z3 fact about `ref` plus a concrete comparison;
+  concrete  plain ints and real bytes: replay and self-test of the fakes.
 """
 import asyncio
 import concurrent.futures
@@ -51,28 +62,22 @@ class _ClientError(Exception):
         self.operation_name = operation_name
 
 
-_ace.HttpResponseError = _HttpResponseError
-_ace.ResourceNotFoundError = _ResourceNotFoundError
-_ace.ClientAuthenticationError = _ClientAuthenticationError
+if isinstance(getattr(_ace, 'HttpResponseError', None), type) and issubclass(_ace.HttpResponseError, Exception):
+    _HttpResponseError = _ace.HttpResponseError  # harness/C23_local.py got there first in this process
+else:
+    _ace.HttpResponseError = _HttpResponseError
+    _ace.ResourceNotFoundError = _ResourceNotFoundError
+    _ace.ClientAuthenticationError = _ClientAuthenticationError
 _bce.ClientError = _ClientError
 
 from hailtop.aiocloud.aioaws import fs as awsfs  # noqa: E402
 from hailtop.aiocloud.aioazure import fs as azfs  # noqa: E402
 from hailtop.aiocloud.aiogoogle.client import storage_client as gcs  # noqa: E402
-from hailtop.aiotools.fs import stream as fsstream  # noqa: E402
-from hailtop.aiotools.fs.exceptions import UnexpectedEOFError  # noqa: E402
-
-for _m in (awsfs, azfs):
-    # the modules did `import azure.core.exceptions` / `import botocore.exceptions`; make sure they see ours
-    if hasattr(_m, 'azure'):
-        _m.azure.core.exceptions.HttpResponseError = _HttpResponseError
-        _m.azure.core.exceptions.ResourceNotFoundError = _ResourceNotFoundError
-        _m.azure.core.exceptions.ClientAuthenticationError = _ClientAuthenticationError
-    if hasattr(_m, 'botocore'):
-        _m.botocore.exceptions.ClientError = _ClientError
-
+from hailtop.aiotools import local_fs  # noqa: E402
+from hailtop.aiotools.fs.exceptions import UnexpectedEOFError  # noqa: E402,F401
 
 RInt = natsym.SInt
+TAG0 = 100
 
 
 def term(x):
@@ -80,7 +85,7 @@ def term(x):
 
 
 class SymSlice:
-    """data[off : off+ln] of the stored object, symbolic offsets (symbolic mode only)."""
+    """data[off : off+ln] of the stored object, symbolic extent (sym mode only)."""
 
     def __init__(self, off, ln):
         self.off = off
@@ -90,22 +95,96 @@ class SymSlice:
         return f'SymSlice({self.off}, {self.ln})'
 
 
-class Blob:
-    """The stored object: `size` bytes; concrete mode carries the bytes."""
+class Shorts:
+    """How many bytes a sized read / a chunk actually delivers when k >= 2 are available.  The first `budget`
+    such reads may come back short: a harness-side symbolic choice over k, k-1, …, 1 (natsym.choose) or, in a
+    concrete run, the next entry of `schedule`."""
 
-    def __init__(self, size, data=None):
+    def __init__(self, budget=0, schedule=None):
+        self.schedule = list(schedule) if schedule is not None else None
+        self.budget = len(self.schedule) if schedule is not None else budget
+        self.used = 0
+
+    def pick(self, k):
+        if k < 2 or self.used >= self.budget:
+            return k
+        self.used += 1
+        if self.schedule is not None:
+            s = self.schedule[self.used - 1]
+            return s if 1 <= s < k else k
+        return natsym.choose(f'short{self.used}_of{k}', list(range(k, 0, -1)))
+
+
+class Blob:
+    """The stored object."""
+
+    def __init__(self, size, data=None, mode=None, ref=0, bound=8, shorts=None):
         self.size = size
         self.data = data
+        self.mode = mode or ('concrete' if data is not None else 'sym')
+        self.ref = ref
+        self.B = bound
+        self.shorts = shorts or Shorts()
         self.requests = []
 
     @property
     def concrete(self):
-        return self.data is not None
+        return self.mode == 'concrete'
 
     def slice(self, off, ln):
-        if self.concrete:
-            return self.data[off:off + ln]
-        return SymSlice(off, ln)
+        if self.mode == 'concrete':
+            return self.data[off:off + ln] if ln > 0 else b''
+        if self.mode == 'sym':
+            return SymSlice(off, ln)
+        k = natsym.concretize(ln, 0, self.B)
+        if k == 0:
+            return b''
+        d = natsym.concretize(off - self.ref, -self.B, self.B)
+        return bytes(TAG0 + d + j for j in range(k))
+
+
+class Window:
+    """A readable view of positions [lo, hi) of the blob: aiohttp body, botocore StreamingBody, local file."""
+    mode = 'rb'
+    name = 'fake'
+
+    def __init__(self, blob, lo, hi, pos=None):
+        self.blob, self.lo, self.hi = blob, lo, hi
+        self.pos = lo if pos is None else pos
+        self.closed = False
+
+    def _avail(self):
+        a = self.hi - self.pos
+        if a < 0:
+            a = 0
+        return a
+
+    def read(self, n=-1):
+        avail = self._avail()
+        if n is None or n < 0:
+            k = avail
+        else:
+            k = n if n < avail else avail
+            if self.blob.mode != 'sym':
+                k = self.blob.shorts.pick(natsym.concretize(k, 0, self.blob.B))
+        out = self.blob.slice(self.pos, k)
+        self.pos = self.pos + k
+        return out
+
+    def seek(self, off, whence=0):
+        if whence == 0:
+            self.pos = self.lo + off
+        elif whence == 1:
+            self.pos = self.pos + off
+        else:
+            self.pos = self.hi + off
+        return self.pos - self.lo
+
+    def tell(self):
+        return self.pos - self.lo
+
+    def close(self):
+        self.closed = True
 
 
 _RANGE = re.compile(r'bytes=(⟦\d+⟧|\d+)-(⟦\d+⟧|\d+)?')
@@ -149,24 +228,18 @@ def serve(blob, header):
 
 # ---- GCS transport ---------------------------------------------------------------------------------------
 class _Content:
-    """aiohttp.StreamReader contract over a body of known extent."""
+    """aiohttp.StreamReader contract over a body window."""
 
-    def __init__(self, blob, off, ln):
-        self.blob, self.off, self.ln, self.pos = blob, off, ln, 0
+    def __init__(self, w):
+        self.w = w
 
     async def read(self, n=-1):
-        if n == -1 or n >= self.ln - self.pos:
-            k = self.ln - self.pos
-        else:
-            k = n
-        out = self.blob.slice(self.off + self.pos, k)
-        self.pos = self.pos + k
-        return out
+        return self.w.read(n)
 
     async def readexactly(self, n):
-        if n <= self.ln - self.pos:
-            out = self.blob.slice(self.off + self.pos, n)
-            self.pos = self.pos + n
+        if n <= self.w._avail():
+            out = self.w.blob.slice(self.w.pos, n)
+            self.w.pos = self.w.pos + n
             return out
         raise asyncio.IncompleteReadError(b'', None)
 
@@ -188,7 +261,7 @@ class _Session:
         r = serve(self.blob, (kwargs.get('headers') or {}).get('Range'))
         if r[0] == '416':
             raise aiohttp.ClientResponseError(None, (), status=416, message='Requested Range Not Satisfiable')
-        return _Resp(_Content(self.blob, r[1], r[2]))
+        return _Resp(_Content(Window(self.blob, r[1], r[1] + r[2])))
 
 
 def make_gcs(blob):
@@ -206,28 +279,9 @@ class _InlineExecutor(concurrent.futures.Executor):
         f = concurrent.futures.Future()
         try:
             f.set_result(fn(*a, **k))
-        except BaseException as e:  # noqa: BLE001 - delivered through the future like a real pool would
-            if not isinstance(e, Exception):
-                raise
+        except Exception as e:
             f.set_exception(e)
         return f
-
-
-class _SymBody:
-    """botocore StreamingBody (BinaryIO) in symbolic mode: only whole-body read() is executed natively."""
-
-    def __init__(self, blob, off, ln):
-        self.blob, self.off, self.ln, self.pos = blob, off, ln, 0
-
-    def read(self, n=-1):
-        if n != -1:
-            raise HarnessError('symbolic S3 body: sized read must go through the _readexactly contract')
-        out = self.blob.slice(self.off + self.pos, self.ln - self.pos)
-        self.pos = self.ln
-        return out
-
-    def close(self):
-        pass
 
 
 class _S3Exceptions:
@@ -245,9 +299,7 @@ class _S3:
         r = serve(self.blob, Range)
         if r[0] == '416':
             raise _ClientError({'Error': {'Code': 'InvalidRange', 'Message': 'not satisfiable'}}, 'GetObject')
-        if self.blob.concrete:
-            return {'Body': io.BytesIO(self.blob.data[r[1]:r[1] + r[2]])}
-        return {'Body': _SymBody(self.blob, r[1], r[2])}
+        return {'Body': Window(self.blob, r[1], r[1] + r[2])}
 
 
 def make_s3(blob):
@@ -255,26 +307,6 @@ def make_s3(blob):
     fs._thread_pool = _InlineExecutor()
     fs._s3 = _S3(blob)
     return fs, 's3://bucket/obj'
-
-
-def _s3_stream_contract(real_factory, blob):
-    """Symbolic mode only: `_ReadableStreamFromBlocking._readexactly` loops on len(block); it is replaced by the
-    contract that CrossHair proves of the real method (obligation `stream._readexactly`, bounded sizes):
-    returns the first n bytes of the remaining body, or raises UnexpectedEOFError iff fewer remain."""
-
-    def factory(pool, f):
-        s = real_factory(pool, f)
-        if isinstance(f, _SymBody):
-            def _readexactly(n):
-                assert n >= 0
-                if n <= f.ln - f.pos:
-                    out = blob.slice(f.off + f.pos, n)
-                    f.pos = f.pos + n
-                    return out
-                raise UnexpectedEOFError()
-            s._readexactly = _readexactly
-        return s
-    return factory
 
 
 # ---- Azure transport -------------------------------------------------------------------------------------
@@ -286,13 +318,16 @@ class _Downloader:
         return self.blob.slice(self.off, self.ln)
 
     def chunks(self):
-        if not self.blob.concrete:
-            raise HarnessError('symbolic Azure body: chunked reads are checked by the CrossHair harness')
-        data = self.blob.data[self.off:self.off + self.ln]
+        if self.blob.mode == 'sym':
+            raise HarnessError('sym mode cannot run the Azure chunk loop: use tag mode')
+        w = Window(self.blob, self.off, self.off + self.ln)
 
         async def it():
-            for i in range(0, len(data), 3):
-                yield data[i:i + 3]
+            while True:
+                b = w.read(self.blob.B if self.blob.mode == 'tag' else 1 << 20)
+                if not b:
+                    return
+                yield b
         return it()
 
 
@@ -336,7 +371,16 @@ def make_azure(blob):
     return fs, 'https://account.blob.core.windows.net/container/obj'
 
 
-MAKERS = {'gcs': make_gcs, 's3': make_s3, 'azure': make_azure}
+# ---- local "transport": the builtin open() ---------------------------------------------------------------
+def make_local(blob):
+    fs = local_fs.LocalAsyncFS.__new__(local_fs.LocalAsyncFS)
+    fs._thread_pool = _InlineExecutor()
+    local_fs.open = lambda path, mode='rb': Window(blob, 0, blob.size)
+    return fs, '/obj'
+
+
+MAKERS = {'gcs': make_gcs, 's3': make_s3, 'azure': make_azure, 'local': make_local}
+BACKENDS = list(MAKERS)
 
 
 def make_fs(backend, blob):
@@ -367,42 +411,64 @@ async def op_read_from(fs, url, start):
     return await fs.read_from(url, start)
 
 
-async def op_open_readexactly(fs, url, start, length, n):
+async def op_seq(fs, url, start, length, ns):
+    """open_from(start, length); read(n) for n in ns; then read() — everything that was returned, in order."""
+    out = []
     async with await fs.open_from(url, start, length=length) as f:
-        return await f.readexactly(n)
+        for n in ns:
+            b = await f.read(n)
+            if len(b) > n:
+                raise OverRead()
+            out.append(b)
+        out.append(await f.read())
+    return b''.join(out)
+
+
+async def op_drain(fs, url, start, length, n):
+    """open_from(start, length); read(n) until it returns b'' — the concatenation."""
+    out = []
+    async with await fs.open_from(url, start, length=length) as f:
+        while True:
+            b = await f.read(n)
+            if len(b) > n:
+                raise OverRead()
+            if not b:
+                break
+            out.append(b)
+    return b''.join(out)
+
+
+class OverRead(Exception):
+    """read(n) handed back more than n bytes."""
+
+
+OPS = {'read_range': op_read_range, 'open_read': op_open_read, 'read_from': op_read_from, 'seq': op_seq,
+       'drain': op_drain}
 
 
 def run_op(backend, blob, op, *args):
-    """Coroutine for one operation on a fresh file system over `blob` (symbolic or concrete)."""
+    """Coroutine for one operation on a fresh file system over `blob`."""
     fs, url = make_fs(backend, blob)
-    saved = awsfs.blocking_readable_stream_to_async
-    if backend == 's3' and not blob.concrete:
-        awsfs.blocking_readable_stream_to_async = _s3_stream_contract(saved, blob)
-
-    async def go():
-        try:
-            return await op(fs, url, *args)
-        finally:
-            awsfs.blocking_readable_stream_to_async = saved
-    return go()
+    return OPS[op](fs, url, *args)
 
 
-def explore(backend, op, mk_args, constraints):
-    """All feasible paths of `op` on `backend` with symbolic size.  mk_args() -> argument list (SInt/SBool/None)."""
-    ex = natsym.Explorer(constraints=constraints, max_paths=400, max_decisions=40)
+def explore(backend, op, mk_args, constraints, mode='sym', bound=8, shorts=0, max_paths=20000):
+    """All feasible paths of `op` on `backend`.  mk_args() -> (ref_start, argument list) with SInt/SBool/None."""
+    ex = natsym.Explorer(constraints=constraints, max_paths=max_paths, max_decisions=200, index_bounds=(0, bound))
     size = RInt(z3.Int('size'))
 
     def body():
-        blob = Blob(size)
+        ref, args = mk_args()
+        blob = Blob(size, mode=mode, ref=ref, bound=bound, shorts=Shorts(budget=shorts))
         natsym.note('blob', blob)
-        return run_op(backend, blob, op, *mk_args())
+        return run_op(backend, blob, op, *args)
     outs = ex.run(body)
     return outs, ex
 
 
-def concrete(backend, op, data, *args):
-    """Concrete run on real bytes: -> ('ok', bytes) | ('exc', ExceptionTypeName)."""
-    blob = Blob(len(data), bytes(data))
+def concrete(backend, op, data, args, schedule=()):
+    """Concrete run on real bytes: -> ('ok', bytes) | ('exc', ExceptionTypeName), blob."""
+    blob = Blob(len(data), bytes(data), shorts=Shorts(schedule=list(schedule)))
     loop = asyncio.new_event_loop()
     try:
         try:
@@ -411,4 +477,8 @@ def concrete(backend, op, data, *args):
             return ('exc', type(e).__name__), blob
         return ('ok', bytes(r)), blob
     finally:
+        try:
+            loop.run_until_complete(loop.shutdown_asyncgens())
+        except Exception:
+            pass
         loop.close()
